@@ -477,6 +477,19 @@ def _run_constraints(spec, rec, qv):
             _compare(RB, RN, exact, "readme_" + form, detail, 0.0 if exact else _mass_abs(RA, syms, values))
             classes.add("readme_" + form)
 
+    # 6. "the same model" also means that building on continues identically: add one more
+    # (numeric) constraint that needs ancillas to the substituted and to the numeric model
+    labels = list(spec["labels"])
+    if exact and len(labels) >= 2 and A.num_ancillas > 0:
+        P2 = {(labels[0],): 1, (labels[1],): -1}
+        with warnings.catch_warnings():
+            warnings.simplefilter("ignore")
+            lib(B.add_constraint_ne_zero, P2, what="continue(subs side)", lam=1)
+            lib(N.add_constraint_ne_zero, P2, what="continue(numeric side)", lam=1)
+        _compare(B, N, exact, "model_after_further_constraint", detail, 0.0)
+        _compare_constraints(B, N, exact, detail)
+        classes.add("continued_after_subs")
+
     nontrivial = A.num_ancillas > 0
     if nontrivial:
         classes.add("constraint_ancillas")
